@@ -18,12 +18,12 @@ RULE_CLASSES = ["Sin", "Cos", "Tan", "Cot", "Sec", "Csc", "ASin", "ACos", "ATan"
                 "Sinh", "Cosh", "Tanh", "Coth", "Sech", "Csch", "ASinh", "ACosh", "ATanh", "ACoth", "ASech", "ACsch", "Log"]
 # my Coq files in dependency order, as stages (the files of one stage do not depend on each other)
 STAGES = [["C10/DiffRuleAst.v", "C10/DiffPoly.v"], ["C10/Gen_DiffRules.v"], ["C10/DiffModel.v"], ["C10/DiffInd.v", "C10/DiffSem.v"],
-          ["C10/DiffAbsent.v", "C10/DiffCache.v", "C10/DiffReal.v"], ["C10/RuleSpec.v"],
+          ["C10/DiffAbsent.v", "C10/DiffCache.v", "C10/DiffReal.v", "C10/DiffFresh.v"], ["C10/RuleSpec.v"],
           ["C10/RS_%s.v" % c for c in RULE_CLASSES], ["C10/RulesAll.v", "C10/DiffPolyProofs.v"], ["C10/DiffSound.v"]]
 OBLIGATIONS = (["C10/P_rule_%s.v" % c for c in RULE_CLASSES] +
                ["C10/P_diff_sound.v", "C10/P_diff_absent.v", "C10/P_diff_cache_irrelevant.v",
                 "C10/P_diff_cache_invariant.v", "C10/P_transcription_current.v", "C10/P_poly_uint_sound.v",
-                "C10/P_poly_urat_sound.v", "C10/P_nonvacuous.v"])
+                "C10/P_poly_urat_sound.v", "C10/P_get_dummy_fresh.v", "C10/P_funsym_chain_rule.v", "C10/P_nonvacuous.v"])
 
 F1_RULE = ["sin", "cos", "tan", "cot", "sec", "csc", "asin", "acos", "atan", "acot", "asec", "acsc",
            "sinh", "cosh", "tanh", "coth", "sech", "csch", "asinh", "acosh", "atanh", "acoth", "asech", "acsch",
